@@ -190,6 +190,17 @@ theorem take_length_sub (ts gs : List Nat) (n : Nat) (h : gs.length = n) :
   subst h
   simp
 
+/-- Python's `(ts ++ gs)[:-n] = ts` when `gs` has `n > 0` entries -/
+theorem pyDropLast_append (ts gs : List Nat) (n : Nat) (h : gs.length = n) (hn : 0 < n) :
+    pyDropLast (ts ++ gs) n = ts := by
+  have : n ≠ 0 := by omega
+  unfold pyDropLast
+  rw [if_neg this]
+  exact take_length_sub ts gs n h
+
+/-- `s[:-0]` is empty -/
+theorem pyDropLast_zero (s : List Nat) : pyDropLast s 0 = [] := by simp [pyDropLast]
+
 theorem cscToDense_shape (c : Csc) (n m : Nat) (h : c.shape = [n, m]) :
     (cscToDense c).shape = [n, m] ∧ (cscToDense c).data.length = n * m := by
   simp [cscToDense, h]
@@ -397,5 +408,85 @@ theorem transposeAll_involutive (dt : String) (s : List Nat) (d : List Rat)
     simp only [Option.map_some, Option.getD_some]
     rw [unravel_ravel' _ _ hbr, List.reverse_reverse, ravel_unravel' s k hk]
     simp [List.getD_eq_getElem?_getD, h2]
+
+/-! ## object state and the ASDF layer -/
+
+/-- the property `grid.weights`, unfolded -/
+theorem weightsProperty_run (auto : AutoWeights) (g : Grid) :
+    (Grid.weightsProperty auto).run g =
+      if g.weights.isNull then
+        ((if (auto g.coords).isNull then Tree.num (.int 1) else auto g.coords),
+          { g with weights := if (auto g.coords).isNull then Tree.num (.int 1) else auto g.coords })
+      else (g.weights, g) := rfl
+
+theorem normGridTree_toDict (g : Grid) : normGridTree g.toDict = g.pyWeights.toDict := by
+  obtain ⟨s, c, w⟩ := g
+  simp [normGridTree, Grid.toDict, Grid.pyWeights, Tree.get, lookup, Tree.set, setKey]
+
+theorem normObjTree_field (f : Field) :
+    normObjTree f.toDict = ({ f with grid := f.grid.pyWeights } : Field).toDict := by
+  obtain ⟨v, g⟩ := f
+  simp [normObjTree, Field.toDict, Tree.get, lookup, Tree.set, setKey, normGridTree_toDict]
+
+theorem normObjTree_basis (b : ModeBasis) (g : Grid) (hg : b.grid = some g) (t : Tree)
+    (ht : b.toDict = .ok t) :
+    .ok (normObjTree t) = ({ b with grid := some g.pyWeights } : ModeBasis).toDict := by
+  obtain ⟨tm, og⟩ := b
+  simp only at hg
+  subst hg
+  simp only [ModeBasis.toDict] at ht
+  injection ht with ht
+  subst ht
+  simp [normObjTree, ModeBasis.toDict, ModeBasis.isSparse, Tree.get, lookup, Tree.set, setKey,
+    normGridTree_toDict]
+
+
+/-! ### file-name suffixes -/
+
+theorem not_endsWith_append (stem ext suf : List Char)
+    (h : endsWith ext suf = false) (h' : endsWith suf ext = false) :
+    endsWith (stem ++ ext) suf = false := by
+  unfold endsWith at *
+  cases hs : suf.isSuffixOf (stem ++ ext) with
+  | false => rfl
+  | true =>
+    have h1 : suf <:+ stem ++ ext := List.isSuffixOf_iff_suffix.mp hs
+    have h2 : ext <:+ stem ++ ext := List.suffix_append stem ext
+    rcases List.suffix_or_suffix_of_suffix h1 h2 with h3 | h3
+    · rw [← List.isSuffixOf_iff_suffix] at h3; rw [h3] at h; cases h
+    · rw [← List.isSuffixOf_iff_suffix] at h3; rw [h3] at h'; cases h'
+
+theorem endsWith_append (stem ext suf : List Char) (h : endsWith ext suf = true) :
+    endsWith (stem ++ ext) suf = true := by
+  unfold endsWith at *
+  rw [List.isSuffixOf_iff_suffix] at *
+  exact h.trans (List.suffix_append stem ext)
+
+/-! ### the ASDF layer is idempotent on weights -/
+
+theorem pyScalar_fix (t : Tree) : pyScalar t = t ∨ (pyScalar t).isNpScalar = false := by
+  unfold pyScalar
+  split
+  · next dt v =>
+    by_cases h1 : dt.startsWith "f" = true
+    · right; simp [h1, Tree.isNpScalar]
+    · by_cases h2 : (dt.startsWith "i" || dt.startsWith "u") = true
+      · right; simp [h1, h2, Tree.isNpScalar]
+      · left; simp [h1, h2]
+  · left; rfl
+
+theorem pyScalar_of_not_npScalar (t : Tree) (h : t.isNpScalar = false) : pyScalar t = t := by
+  unfold pyScalar
+  split
+  · simp [Tree.isNpScalar] at h
+  · rfl
+
+theorem pyScalar_idem (t : Tree) : pyScalar (pyScalar t) = pyScalar t := by
+  rcases pyScalar_fix t with h | h
+  · rw [h, h]
+  · exact pyScalar_of_not_npScalar _ h
+
+theorem pyWeights_idem (g : Grid) : g.pyWeights.pyWeights = g.pyWeights := by
+  simp [Grid.pyWeights, pyScalar_idem]
 
 end HcipyVerif.Serial
